@@ -111,7 +111,11 @@ func plannerDefaultSQL(c *schema.Column) string {
 
 // column of a schema.Table handed to the planner
 func (e *tieEnc) planCol(c *schema.Column) {
+	// the declared type the planner writes (state.column: FormatType(c.Type.Type))
 	typ := strings.ToLower(c.Type.Raw)
+	if f, err := sqlite.FormatType(c.Type.Type); err == nil {
+		typ = strings.ToLower(f)
+	}
 	dk, txt := defaultText(c)
 	var gx schema.GeneratedExpr
 	gen, stored := false, false
